@@ -113,7 +113,9 @@ Section shapes.
     ss_match_ok sh && ss_hit_read_ok sh && ss_hit_store_ok sh && ss_miss_read_ok sh && ss_miss_store_ok sh.
 
   (** * 2. VMF.search *)
-  Inductive scond := CInTarget | CInClass.          (* [name in self.by_target] / [name in self.by_class] *)
+  Inductive scond := CInTarget | CInClass           (* [name in self.by_target] / [name in self.by_class] *)
+                   | CNeTarget | CNeClass.          (* round 5: [bool(self.by_target.get(name))] / [...by_class...]:
+                                                       the key is present AND its set is non-empty *)
   Inductive mtest := TEq | TPrefix.                 (* [== name] / [.startswith(name)] *)
   Inductive sprog :=
   | PSkip
@@ -121,8 +123,10 @@ Section shapes.
   | PIf (c : scond) (a b : sprog)
   | PYieldTarget                                    (* yield from self.by_target[name]   (defaultdict read) *)
   | PYieldClass                                     (* yield from self.by_class[name]    (defaultdict read) *)
-  | PScanTarget (t : mtest) (folded : bool).        (* for k, ents in list(self.by_target.items()):
+  | PScanTarget (t : mtest) (folded : bool)         (* for k, ents in list(self.by_target.items()):
                                                          if k is not None and k[.casefold()] <t> name: yield from ents *)
+  | PYieldGetTarget                                 (* round 5: yield from self.by_target.get(name, ()) — a plain lookup, *)
+  | PYieldGetClass.                                 (*          nothing is inserted for an absent key *)
 
   Definition named (p : str → bool) (folded : bool) (st : mstate) : gset nat :=
     ⋃ (map snd (List.filter (λ kv : option str * gset nat,
@@ -131,18 +135,24 @@ Section shapes.
 
   Definition has_target (nm : str) (st : mstate) : bool := bool_decide (is_Some (by_target st !! Some nm)).
   Definition has_class (nm : str) (st : mstate) : bool := bool_decide (is_Some (by_class st !! nm)).
+  (** truthiness of [self.by_target.get(name)]: there is a set and it has a member *)
+  Definition ne_target (nm : str) (st : mstate) : bool := bool_decide (ix_get (by_target st) (Some nm) ≠ ∅).
+  Definition ne_class (nm : str) (st : mstate) : bool := bool_decide (ix_get (by_class st) nm ≠ ∅).
 
   Fixpoint sp_run (p : sprog) (nm : str) (st : mstate) : gset nat * mstate :=
     match p with
     | PSkip => (∅, st)
     | PSeq a b => let '(r1, st1) := sp_run a nm st in
                   let '(r2, st2) := sp_run b nm st1 in (r1 ∪ r2, st2)
-    | PIf c a b => if (match c with CInTarget => has_target nm st | CInClass => has_class nm st end)
+    | PIf c a b => if (match c with CInTarget => has_target nm st | CInClass => has_class nm st
+                                  | CNeTarget => ne_target nm st | CNeClass => ne_class nm st end)
                    then sp_run a nm st else sp_run b nm st
     | PYieldTarget => (ix_get (by_target st) (Some nm), upd_target (probe (Some nm)) st)
     | PYieldClass => (ix_get (by_class st) nm, upd_class (probe nm) st)
     | PScanTarget t f =>
         (named (match t with TEq => λ k, bool_decide (k = nm) | TPrefix => is_prefix nm end) f st, st)
+    | PYieldGetTarget => (ix_get (by_target st) (Some nm), st)
+    | PYieldGetClass => (ix_get (by_class st) nm, st)
     end.
 
   Record search_shape := SearchShape {
@@ -159,31 +169,44 @@ Section shapes.
     if ends_star nm then sp_run (sh_star sh) (if sh_star_strips sh then removelast nm else nm) st
     else sp_run (sh_exact sh) nm st.
 
-  (** symbolic run over the two facts a program can test (is the key present in by_target / by_class):
+  (** symbolic run over the four facts a program can test (is the key present in by_target / by_class — these change
+      when a defaultdict read inserts an empty set — and is its set non-empty — these never change during a search):
       which of the three parts — by_target[name] (or the equality scan), by_class[name], the prefix scan —
       were yielded, and the presence facts afterwards *)
   Definition sym := (bool * bool * bool * bool * bool)%type.
-  Fixpoint sp_sym (p : sprog) (bt bc : bool) : sym :=
+  Fixpoint sp_sym (net nec : bool) (p : sprog) (bt bc : bool) : sym :=
     match p with
     | PSkip => (false, false, false, bt, bc)
-    | PSeq a b => let '(t1, c1, p1, bt1, bc1) := sp_sym a bt bc in
-                  let '(t2, c2, p2, bt2, bc2) := sp_sym b bt1 bc1 in
+    | PSeq a b => let '(t1, c1, p1, bt1, bc1) := sp_sym net nec a bt bc in
+                  let '(t2, c2, p2, bt2, bc2) := sp_sym net nec b bt1 bc1 in
                   (t1 || t2, c1 || c2, p1 || p2, bt2, bc2)
-    | PIf CInTarget a b => if bt then sp_sym a bt bc else sp_sym b bt bc
-    | PIf CInClass a b => if bc then sp_sym a bt bc else sp_sym b bt bc
+    | PIf CInTarget a b => if bt then sp_sym net nec a bt bc else sp_sym net nec b bt bc
+    | PIf CInClass a b => if bc then sp_sym net nec a bt bc else sp_sym net nec b bt bc
+    | PIf CNeTarget a b => if net then sp_sym net nec a bt bc else sp_sym net nec b bt bc
+    | PIf CNeClass a b => if nec then sp_sym net nec a bt bc else sp_sym net nec b bt bc
     | PYieldTarget => (true, false, false, true, bc)
     | PYieldClass => (false, true, false, bt, true)
     | PScanTarget TEq _ => (true, false, false, bt, bc)
     | PScanTarget TPrefix _ => (false, false, true, bt, bc)
+    | PYieldGetTarget => (true, false, false, bt, bc)
+    | PYieldGetClass => (false, true, false, bt, bc)
     end.
-  Definition flag_cases : list (bool * bool) := [(false, false); (false, true); (true, false); (true, true)].
-  (** exact branch: whenever a key is present its set is yielded, and the prefix scan never is *)
+  (** the consistent combinations (key in by_target, key in by_class, its name set non-empty, its class set non-empty):
+      a non-empty set is present *)
+  Definition flag_cases : list (bool * bool * bool * bool) :=
+    [(false, false, false, false); (false, true, false, false); (false, true, false, true);
+     (true, false, false, false); (true, true, false, false); (true, true, false, true);
+     (true, false, true, false); (true, true, true, false); (true, true, true, true)].
+  (** exact branch: whenever a set has members it is yielded, and the prefix scan never is *)
   Definition exact_ok (p : sprog) : bool :=
-    forallb (λ f : bool * bool, let '(t, c, pp, _, _) := sp_sym p f.1 f.2 in
-                                negb pp && implb f.1 t && implb f.2 c) flag_cases.
+    forallb (λ f : bool * bool * bool * bool,
+               let '(bt, bc, net, nec) := f in
+               let '(t, c, pp, _, _) := sp_sym net nec p bt bc in negb pp && implb net t && implb nec c) flag_cases.
   (** star branch: the prefix scan is always yielded, the class set never is *)
   Definition star_ok (p : sprog) : bool :=
-    forallb (λ f : bool * bool, let '(t, c, pp, _, _) := sp_sym p f.1 f.2 in pp && negb c) flag_cases.
+    forallb (λ f : bool * bool * bool * bool,
+               let '(bt, bc, net, nec) := f in
+               let '(t, c, pp, _, _) := sp_sym net nec p bt bc in pp && negb c) flag_cases.
   Definition search_shape_ok (sh : search_shape) : bool :=
     sh_empty_returns sh && sh_folds sh && sh_star_strips sh && star_ok (sh_star sh) && exact_ok (sh_exact sh).
 
@@ -194,6 +217,15 @@ Section shapes.
   Definition search_shape_elif : search_shape :=
     SearchShape true true true (PScanTarget TPrefix true)
       (PIf CInTarget PYieldTarget (PIf CInClass PYieldClass PSkip)).
+  (** the shape of seeded fault c07_5 (round 5): [ents = self.by_target.get(name) or self.by_class.get(name)] followed by
+      [if ents: yield from ents] — the `or` picks the name set when it has a member, else the class set *)
+  Definition search_shape_or : search_shape :=
+    SearchShape true true true (PScanTarget TPrefix true)
+      (PIf CNeTarget (PIf CNeTarget PYieldGetTarget PSkip) (PIf CNeClass PYieldGetClass PSkip)).
+  (** ... and two direct lookups one after the other: a correct rewriting *)
+  Definition search_shape_two_gets : search_shape :=
+    SearchShape true true true (PScanTarget TPrefix true)
+      (PSeq (PIf CNeTarget PYieldGetTarget PSkip) (PIf CNeClass PYieldGetClass PSkip)).
 End shapes.
 
 (** * 3. CopySet.__iter__ *)
